@@ -171,9 +171,46 @@ def run(chk, repo):
                why="a callable memory must be asked for exactly the needed size lm (only when not iterable)", node=mi)
     tws = [n for n in ast.walk(mi) if isinstance(n, ast.Call) and canon_call(mod, n) in ("itertools.takewhile",
                                                                                           "itertools.islice")]
-    chk.require(len(tws) == 1, "LinearFilter.__call__: memory truncation idiom (takewhile/islice) not found")
-    tw = tws[0]
-    if canon_call(mod, tw) == "itertools.islice":
+    loop_form = None
+    if not tws:
+        # src = memory ; memory = [] ; for idx, data in enumerate(src): if not idx < lm: break ; memory.append(data)
+        for lp_ in [n for n in ast.walk(mi) if isinstance(n, ast.For)]:
+            if isinstance(lp_.iter, ast.Call) and unparse(lp_.iter.func) == "enumerate" and isinstance(lp_.target, ast.Tuple) \
+                    and len(lp_.target.elts) == 2 and len(lp_.body) == 2 and isinstance(lp_.body[0], ast.If) \
+                    and len(lp_.body[0].body) == 1 and isinstance(lp_.body[0].body[0], ast.Break) and not lp_.body[0].orelse:
+                loop_form = lp_
+    chk.require(len(tws) == 1 or loop_form is not None,
+                "LinearFilter.__call__: memory truncation idiom (takewhile/islice/enumerate loop with break) not found")
+    if loop_form is not None:
+        iv, dv = [unparse(x) for x in loop_form.target.elts]
+        t_ = unparse(loop_form.body[0].test)
+        good = t_ in ("not %s < lm" % iv, "%s >= lm" % iv, "lm <= %s" % iv, "not lm > %s" % iv)
+        chk.decide(good, "C04.memory", W("LinearFilter.__call__"), "truncation: stop at " + t_,
+                   why="keep exactly the items with index < lm, in order", node=loop_form)
+        good = unparse(loop_form.body[1]) == "memory.append(%s)" % dv
+        srcname = unparse(loop_form.iter.args[0])
+        pre = [n for n in ast.walk(mi) if isinstance(n, ast.Assign) and n.lineno <= loop_form.lineno]
+        fresh_ = False
+        src_ok = False
+        for a_ in pre:
+            if len(a_.targets) == 1 and isinstance(a_.targets[0], ast.Tuple) and isinstance(a_.value, ast.Tuple):
+                for t2, v2 in zip(a_.targets[0].elts, a_.value.elts):
+                    if unparse(t2) == "memory" and unparse(v2) == "[]":
+                        fresh_ = True
+                    if unparse(t2) == srcname and unparse(v2) == "memory":
+                        src_ok = True
+            elif len(a_.targets) == 1:
+                if unparse(a_.targets[0]) == "memory" and unparse(a_.value) == "[]":
+                    fresh_ = True
+                if unparse(a_.targets[0]) == srcname and unparse(a_.value) == "memory":
+                    src_ok = True
+        chk.decide(good and fresh_ and src_ok, "C04.memory", W("LinearFilter.__call__"),
+                   "items kept in order: " + short(loop_form.body[1]),
+                   why="memory list must be the given items, in their order, collected into a new list", node=mi)
+    tw = tws[0] if tws else None
+    if tw is None:
+        pass
+    elif canon_call(mod, tw) == "itertools.islice":
         good = [unparse(x) for x in tw.args] == ["memory", "lm"]
         chk.decide(good, "C04.memory", W("LinearFilter.__call__"), "truncation: " + short(tw),
                    why="keep exactly the first lm items", node=tw)
@@ -209,6 +246,13 @@ def run(chk, repo):
                 (isinstance(n, ast.Assign) and unparse(n.targets[0]) == "memory" and isinstance(n.value, ast.Call)
                  and unparse(n.value.func) == "list")]
     in_else = [n for n in rebuilds if n in mi.orelse]
+    if not in_else:
+        for n in mi.orelse:
+            if isinstance(n, ast.Assign) and len(n.targets) == 1 and isinstance(n.targets[0], ast.Tuple) \
+                    and isinstance(n.value, ast.Tuple):
+                for t2, v2 in zip(n.targets[0].elts, n.value.elts):
+                    if unparse(t2) == "memory" and isinstance(v2, (ast.List, ast.ListComp)):
+                        in_else.append(n)
     chk.decide(bool(in_else), "C04.memory-own", W("LinearFilter.__call__"),
                "given memory is copied into a fresh list unconditionally: " + (short(in_else[0]) if in_else else
                "no unconditional 'memory = [...]' in the given-memory arm"),
@@ -234,42 +278,30 @@ def run(chk, repo):
     chk.decide(good or ("exec(data" in " ".join(ee_txt) and "eval(expr" in " ".join(ee_txt)), "C04.exec",
                W("_exec_eval"), "; ".join(ee_txt), why="_exec_eval must exec the data and return eval(expr) from it",
                node=ee)
-    arg_asg = [s for s in body if isinstance(s, ast.Assign) and unparse(s.targets[0]) == "arguments"]
-    chk.require(len(arg_asg) == 1, "assignment of 'arguments' not found")
-    chk.decide(unparse(arg_asg[0].value) == "[iter(seq), memory, zero]", "C04.exec", W("LinearFilter.__call__"),
-               short(arg_asg[0]), why="kernel must receive the input iterator, the memory list and zero, in this order",
-               node=arg_asg[0])
-    exts = [s.value for s in body if isinstance(s, ast.Expr) and isinstance(s.value, ast.Call)
-            and unparse(s.value.func) == "arguments.extend"]
-    names_ext = [s.value for s in ast.walk(call) if isinstance(s, ast.Expr) and isinstance(s.value, ast.Call)
-                 and unparse(s.value.func) == "arg_names.extend"]
-    def ext_shape(c):
-        g = c.args[0]
-        if not isinstance(g, ast.GeneratorExp):
-            return None
-        return (unparse(g.elt), unparse(g.generators[0].target), unparse(g.generators[0].iter))
-    shapes = [ext_shape(c) for c in exts]
-    want = [("iter(self.numpoly[idx])", "idx", "num_iterables"), ("iter(self.denpoly[idx])", "idx", "den_iterables")]
-    def normv(sh):
-        if sh is None:
-            return None
-        e, t, i = sh
-        return (e.replace("[%s]" % t, "[idx]"), "idx", i)
-    chk.decide([normv(s) for s in shapes] == want, "C04.exec", W("LinearFilter.__call__"),
-               "arguments extended by %s" % shapes,
-               why="coefficient iterators must be passed numerator first, then denominator, each from its own "
-                   "polynomial at its own delay", node=call)
-    nshapes = [ext_shape(c) for c in names_ext]
-    good = len(nshapes) == 2 and nshapes[0] and nshapes[1] and nshapes[0][2] == "num_iterables" \
-        and nshapes[1][2] == "den_iterables" and nshapes[0][0].startswith("'b{") and nshapes[1][0].startswith("'a{")
-    chk.decide(good, "C04.exec", W("LinearFilter.__call__"), "arg_names extended by %s" % nshapes,
-               why="parameter names must be b<delay> for numerator and a<delay> for denominator iterators, in the "
-                   "same order as the arguments", node=call)
-    last = body[-1]
-    good = isinstance(last, ast.Return) and unparse(last.value) == "Stream(gen(*arguments))"
-    chk.decide(good, "C04.exec", W("LinearFilter.__call__"), short(last),
-               why="result must be the lazy Stream over the generated generator", node=last)
-
+    # what the kernel is called with, folded for schemas with and without coefficient Streams
+    call_schemas = [K.Schema({0: "generic", 1: "stream"}, {0: "one", 1: "stream", 2: "generic"}),
+                    K.Schema({0: "stream", 2: "stream"}, {0: "generic", 2: "stream"}),
+                    K.Schema({0: "generic"}, {0: "one", 1: "generic"}),
+                    K.Schema({1: "stream"}, {0: "minus_one"})]
+    for sch in call_schemas:
+        try:
+            fa = K.fold_arguments(call, sch)
+        except Inconclusive as ex:
+            raise AnalysisError("cannot fold the kernel call of LinearFilter.__call__ for %s: %s" % (sch.label(), ex))
+        ni, di = fa["num_iterables"] or [], fa["den_iterables"] or []
+        want_args = ["iter(seq)", "memory", "zero"] + ["iter(self.numpoly[%r])" % k for k in ni] \
+            + ["iter(self.denpoly[%r])" % k for k in di]
+        want_names = ["seq", "memory", "zero"] + ["b%d" % k for k in ni] + ["a%d" % k for k in di]
+        streams_n = [k for k, t in sch.num.items() if t.cls == "stream"]
+        streams_d = [k for k, t in sch.den.items() if t.cls == "stream" and k != 0]
+        ok_ = fa["args"] == want_args and (fa["arg_names"] in (None, want_names) if not (ni or di) else fa["arg_names"] == want_names) \
+            and sorted(ni) == sorted(streams_n) and sorted(di) == sorted(streams_d) \
+            and fa["wrapper"] == "Stream" and fa["callee"] == "gen"
+        chk.decide(ok_, "C04.exec", W("LinearFilter.__call__"),
+                   "[%s] Stream(gen(%s)) for parameters %s" % (sch.label(), ", ".join(fa["args"]), fa["arg_names"]),
+                   why="kernel must receive the input iterator, the memory list and zero, then the iterator of every "
+                       "Stream coefficient - numerator first, each from its own polynomial at its own delay - in the "
+                       "order of its parameter names b<delay>/a<delay>; expected %s for %s" % (want_args, want_names), node=call)
     # zero-gain guard
     zg = [s for s in body if isinstance(s, ast.If) and unparse(s.test) in ("self.denpoly[0] == 0", "0 == self.denpoly[0]")]
     chk.decide(len(zg) == 1 and isinstance(zg[0].body[0], ast.Raise), "C04.exec", W("LinearFilter.__call__"),
